@@ -27,6 +27,8 @@ Streams (domain `lh`, see ocaml/drv_lh.ml for the line formats):
      keys; get / get_ex on NULL, on non-objects and with a NULL result pointer.  Not covered because
      json-c documents no refusal there: a NULL key (undefined) and add / del / length on a
      non-object (assert);
+  S  the seed source of lh_char_hash scripted (fresh process per case: -1 sentinel draws before a seed,
+     0, 1, 0xfffffffe, INT_MAX, INT_MIN), followed by an add / lookup / delete / re-add history;
   H  the string hash functions themselves on the same bytes at the 8 offsets and in a heap duplicate;
   L  the load-factor expression `count >= size * 0.66` against the model's binary64 emulation.
 
@@ -706,6 +708,51 @@ def gen_small(rng, tier):
     return out
 
 
+SEED_FIRST = ["0", "1", "-2", "2147483647", "-2147483648", "5"]
+
+
+def gen_seed(rng, tier):
+    """the seed source of lh_char_hash as an oracle: each case runs in a fresh driver process (the
+    seed is latched once per process) whose json_c_get_random_seed() first answers scripted draws,
+    then a short public-API history: add keys, look each up, delete, re-add.  Draw scripts: a real
+    seed at once (0, 1, 0xfffffffe, INT_MAX, INT_MIN) and j answers of the "unset" sentinel -1 before
+    a real seed, j aimed at the history: every hash call made while the seed is unset draws once, the
+    driver's first observation hashes every key of the universe (nk calls), the first add is call
+    nk+1: so j = 1, 2 (settled before any insertion), nk+1 (the first insertion is the last call that
+    sees the sentinel), nk+2, 2nk+3, 3nk+5 (the sentinel persists into later steps)"""
+    out = []
+    reps = 2 if tier == "quick" else 12
+    for rep in range(reps):
+        for which in range(6 + len(SEED_FIRST)):
+            nk = rng.choice([2, 3, 5, 8])
+            keys, used = [], set()
+            while len(keys) < nk:
+                k = rand_key(rng, used)
+                used.add(k); keys.append(k)
+            if which < 6:
+                j = [1, 2, nk + 1, nk + 2, 2 * nk + 3, 3 * nk + 5][which]
+                draws = ",".join(["-1"] * j + [str(rng.choice([0, 5, 7, 123456789, -7]))])
+                size = rng.choice([16, 16, 5, 40])
+            else:
+                draws = SEED_FIRST[which - 6]
+                size = rng.choice([16, 1, 2, 5])
+            ops = []
+            val = 0
+            for k in range(nk):
+                val += 1
+                ops.append("a%d,%d,0" % (k, val))
+                ops.append("g%d" % k)
+            ops += ["g0", "a0,%d,0" % (val + 1), "d0", "g0", "a0,%d,0" % (val + 2)]
+            for _ in range(rng.randint(0, 4)):
+                val += 3
+                k = rng.randrange(nk)
+                ops.append(rng.choice(["d%d" % k, "a%d,%d,0" % (k, val), "g%d" % k, "x%d" % k]))
+            ktoks = [k.encode("latin-1").hex() or "-" for k in keys]
+            hsel = 1 if (which >= 6 and rep % 2 == 1 and which % 3 == 0) else 0
+            out.append(("lh S %s %d %d 0 %s %s" % (draws, hsel, size, ",".join(ktoks), ";".join(ops)), {"kind": "S-seed-source"}))
+    return out
+
+
 def gen_hash(rng, tier):
     """the direct hash oracle: both string hashes on the same bytes at all 8 offsets (+ a heap
     duplicate): lengths 0..40 each, longer keys sampled; distinct bytes, any value 1..255"""
@@ -726,7 +773,7 @@ def add_offsets(cases, orng):
     for line, meta in cases:
         p = line.split(" ")
         if p[1] != "B" or meta.get("kind") == "small-scope":      # the enumeration is exact: nothing sprinkled in
-            res.append((line, meta)); continue
+            res.append((line, meta)); continue                    # (S lines keep their shape too)
         nk = len(p[5].split(","))
         ops = []
         for op in p[6].split(";"):
@@ -761,7 +808,7 @@ def gen(rng, tier):
     import random as _random
     cases = (gen_l(rng, tier) + gen_env(rng, tier) + gen_fdel(rng, tier) + gen_exhaustive(rng, tier)
              + gen_churn_a(rng, tier) + gen_b(rng, tier) + gen_keybytes(rng, tier) + gen_hash(rng, tier)
-             + gen_refused(rng, tier) + gen_small(rng, tier))
+             + gen_refused(rng, tier) + gen_small(rng, tier) + gen_seed(rng, tier))
     return add_offsets(cases, _random.Random(rng.random()))
 
 
@@ -784,6 +831,9 @@ def oracle(line, meta, impl):
         return ("crash", "no output for this case (the driver died)")
     parts = line.split(" ")
     mode = parts[1]
+    if mode == "S":                 # a B history behind a scripted seed source: the same ordered-map semantics
+        parts = [parts[0], "B"] + parts[3:]
+        mode = "B"
     if mode == "H":
         # the hash of a key is a function of its bytes
         toks = impl.split(",")
@@ -958,9 +1008,9 @@ def nontrivial(line, meta, impl):
 def shrink(ck, line, cls):
     import fw
     parts = line.split(" ")
-    if parts[1] not in "AB":
+    if parts[1] not in "ABS":
         return line
-    idx = 5 if parts[1] == "A" else 6
+    idx = {"A": 5, "B": 6, "S": 7}[parts[1]]
     ops = parts[idx].split(";")
 
     def mk(sub):
@@ -983,7 +1033,7 @@ def search(rng, broken_lines):
         if p[1] == "A":
             for size in range(1, 9):
                 extra.append((" ".join(p[:2] + [str(size)] + p[3:]), {"kind": "search"}))
-    extra += gen_refused(rng, "quick") + gen_keybytes(rng, "quick") + gen_hash(rng, "quick") + gen_env(rng, "quick") + gen_fdel(rng, "quick") + gen_churn_a(rng, "quick") + gen_b(rng, "quick") + gen_exhaustive(rng, "quick")[:6000]
+    extra += gen_seed(rng, "quick") + gen_refused(rng, "quick") + gen_keybytes(rng, "quick") + gen_hash(rng, "quick") + gen_env(rng, "quick") + gen_fdel(rng, "quick") + gen_churn_a(rng, "quick") + gen_b(rng, "quick") + gen_exhaustive(rng, "quick")[:6000]
     return extra
 
 
